@@ -55,6 +55,10 @@ Definition step (c : cache) (o : op) : cache * out :=
   match o with
   | OPut k v => (mkC (l_set keq k v (c_lfu c)) (c_disk c) (c_evq c) (c_wbq c), Unit)
   | ORead k =>
+      (* Cache.Get: lfu.Get; on a miss (since /repo 39795c3) the rest runs under the per-cache missMutex and starts
+         with a second lfu.Get, which in a sequential history misses again and changes nothing (a missing lfu.Get
+         has no effect); then Badger, FromBytes or New, lfu.Set.  The mutex only serializes concurrent misses of
+         one cache; it does not wait for in-flight saves, so the D11 schedule is unchanged. *)
       match l_get keq k (c_lfu c) with
       | (Some v, l') => (mkC l' (c_disk c) (c_evq c) (c_wbq c), Ret v)
       | (None, _) =>
